@@ -27,37 +27,25 @@ from harness import lib_inline_versions as LV
 # helpers on the real side
 # ------------------------------------------------------------------------------------------------
 
-_ORT = None
-_ORT_PLAIN = None
 ORT_FALLBACKS = {"unoptimised": 0}
+_WORKER = None
 
 
 def ort_run(model: onnx.ModelProto, feeds: dict) -> list:
-    """The model under onnxruntime. Its graph optimiser has defects of its own on valid models (e.g.
-    `GetIndexFromName ... _new_reshape` on Shape/Flatten/Softmax/Reshape followed by a Reshape): a model it
-    refuses is tried again with the optimiser switched off before the refusal counts."""
-    global _ORT, _ORT_PLAIN
-    import onnxruntime as ort
+    """The model under onnxruntime - in a child process (harness/lib_ortworker.py): on some invalid models
+    onnxruntime does not raise but aborts the process; that is a per-case `RuntimeAborted`, never the end of the check.
+    A model its graph optimiser refuses with its own known defect (`GetIndexFromName ... _new_reshape` on valid
+    Shape/Flatten/Softmax/Reshape -> Reshape chains) is tried again there with the optimiser switched off."""
+    global _WORKER
+    from harness import lib_ortworker
 
-    if _ORT is None:
-        so = ort.SessionOptions()
-        so.log_severity_level = 4
-        so.intra_op_num_threads = 1
-        so.inter_op_num_threads = 1
-        _ORT = so
-        so2 = ort.SessionOptions()
-        so2.log_severity_level = 4
-        so2.intra_op_num_threads = 1
-        so2.inter_op_num_threads = 1
-        so2.graph_optimization_level = ort.GraphOptimizationLevel.ORT_DISABLE_ALL
-        _ORT_PLAIN = so2
-    b = model.SerializeToString()
+    if _WORKER is None:
+        _WORKER = lib_ortworker.OrtWorker()
     try:
-        sess = ort.InferenceSession(b, _ORT, providers=["CPUExecutionProvider"])
-    except Exception:  # noqa: BLE001
-        sess = ort.InferenceSession(b, _ORT_PLAIN, providers=["CPUExecutionProvider"])
-        ORT_FALLBACKS["unoptimised"] += 1
-    return sess.run(None, feeds)
+        return _WORKER.run(model.SerializeToString(), feeds)
+    finally:
+        ORT_FALLBACKS["unoptimised"] = _WORKER.fallbacks
+        ORT_FALLBACKS["aborted"] = _WORKER.crashes
 
 
 def np_dtype(elem: int):
@@ -94,9 +82,19 @@ def public_type_json(t) -> Any:
     return None
 
 
-def concrete(tj: Any, rng: Optional[random.Random] = None, how: str = "same") -> Any:
+def runtime_shape_of(m: onnx.ModelProto) -> Optional[list]:
+    """TypeGen models carry their run-time shape in the graph's doc_string (declarations may hide it)."""
+    d = m.graph.doc_string
+    if d.startswith("runtime-shape:"):
+        return json.loads(d[len("runtime-shape:"):])
+    return None
+
+
+def concrete(tj: Any, rng: Optional[random.Random] = None, how: str = "same", runtime: Optional[list] = None) -> Any:
     """An argument type for a declared input type: symbolic dims replaced by what the data has."""
     e, dims = tj["t"]
+    if runtime is not None and e == TP.FLOAT and how == "same":
+        return {"t": [e, list(runtime)]}
     if dims is None:
         return {"t": [e, [2] if e != TP.BOOL else []]}
     out = []
@@ -108,6 +106,10 @@ def concrete(tj: Any, rng: Optional[random.Random] = None, how: str = "same") ->
         else:
             out.append(rng.choice([2, None, "K", d]))
     return {"t": [e, out]}
+
+
+def concrete_for(m: onnx.ModelProto, i, rng: Optional[random.Random] = None, how: str = "same") -> Any:
+    return concrete(L.type_json(i.type), rng, how, runtime_shape_of(m))
 
 
 def closure_of(f) -> dict:
@@ -127,6 +129,7 @@ def gen_call(rng: random.Random, m: onnx.ModelProto) -> dict:
     ins = [i.name for i in m.graph.input]
     defaults = {i.name for i in m.graph.initializer}
     tjs = {i.name: L.type_json(i.type) for i in m.graph.input}
+    rt = runtime_shape_of(m)
     n = len(ins)
     style = rng.random()
     if style < 0.6:  # a correct call
@@ -158,17 +161,23 @@ def gen_call(rng: random.Random, m: onnx.ModelProto) -> dict:
             return tj
         r = rng.random()
         if r < 0.82:
-            return concrete(tj, rng, "same")
+            return concrete(tj, rng, "same", rt)
         if r < 0.9:
             return concrete(tj, rng, "vary")
-        e, dims = concrete(tj, rng, "same")["t"]
-        k = rng.randrange(5)
+        e, dims = concrete(tj, rng, "same", rt)["t"]
+        k = rng.randrange(6)
         if k == 0:
             return {"t": [TP.INT64 if e != TP.INT64 else TP.FLOAT, dims]}
         if k == 1:
             return {"t": [e, list(dims) + [1]]}
         if k == 2:
             return {"t": [e, [3 if isinstance(d, int) else d for d in dims]]}
+        if k == 5 and dims:
+            # same rank, ONE constant replaced by another constant (0 <-> non-zero included)
+            j = rng.randrange(len(dims))
+            d = dims[j]
+            other = rng.choice([x for x in (0, 1, 2, 3, 5) if x != d]) if isinstance(d, int) else 0
+            return {"t": [e, [other if q == j else x for q, x in enumerate(dims)]]}
         if k == 3:
             return {"t": [e, None]}
         return {"t": [e, [None for _ in dims]]}
@@ -475,6 +484,8 @@ def input_values(rng: random.Random, m: onnx.ModelProto) -> dict:
         else:
             dims = (L.type_json(i.type) or {"t": [e, None]})["t"][1]
             shape = [2] if dims is None else [d if isinstance(d, int) else 2 for d in dims]
+            if runtime_shape_of(m) is not None:
+                shape = list(runtime_shape_of(m))
             n = int(np.prod(shape)) if shape else 1
             vals[i.name] = np.array([rng.randrange(-4, 5) + 0.25 * rng.randrange(4) for _ in range(n)], np.float32).reshape(shape)
     return vals
@@ -701,11 +712,136 @@ def chainable(m: onnx.ModelProto, float_ins, float_outs) -> bool:
     return True
 
 
+def partner_model(v: int, rank: int = 1) -> onnx.ModelProto:
+    """A second model to inline next to m, written against opset v, spelled in the way that is valid ONLY around v:
+    Reduce*<axes attribute> below 18, Reduce*(axes input) from 18 on (ReduceSum: attribute below 13). float32 of any
+    shape of rank >= 1 in, same shape out: p(x) = x + reduce(x over axis 0, keepdims)."""
+    H, NH = onnx.helper, onnx.numpy_helper
+    kind = {11: "ReduceSum", 12: "ReduceSum", 13: "ReduceMean", 16: "ReduceL1", 17: "ReduceMax", 18: "ReduceMean", 19: "ReduceMax", 20: "ReduceMin", 21: "ReduceL1"}[v]
+    if v >= 18:
+        nodes = [H.make_node("Constant", [], ["ax"], value=NH.from_array(np.array([0], np.int64), "ax")),
+                 H.make_node(kind, ["px", "ax"], ["pr"], keepdims=1)]
+    else:
+        nodes = [H.make_node(kind, ["px"], ["pr"], axes=[0], keepdims=1)]
+    nodes.append(H.make_node("Add", ["px", "pr"], ["py"]))
+    vi = lambda n: H.make_tensor_value_info(n, TP.FLOAT, [None] * rank)  # noqa: E731
+    pm = H.make_model(H.make_graph(nodes, "partner", [vi("px")], [vi("py")]), opset_imports=[H.make_operatorsetid("", v)], ir_version=7 if v < 15 else 8)
+    onnx.checker.check_model(pm, full_check=True)
+    return pm
+
+
+PLACES = ["top", "then", "else", "loop", "nested"]
+
+
+def oracle_two_models(m: onnx.ModelProto, seed: int) -> list[tuple[str, str]]:
+    """TWO different inlined models (m and a partner written against another opset 11-21) in one program, each at the
+    top level / in a then / else branch / in a Loop body / nested two bodies deep, either order, the partner on m's result
+    or independent - and NO other operator that asks for a newer opset (If-16, Loop-16, Squeeze-13, Neg-13, Constant-13
+    only): the opset of the built model is decided by the inlined models alone. Both results, for both values of the
+    condition, must be what m and the partner compute. Model-free."""
+    from spox import Tensor, argument, build, inline
+
+    rng = random.Random(seed)
+    fails: list[tuple[str, str]] = []
+    before = m.SerializeToString(deterministic=True)
+    m_ref = fresh(before)
+    ins = [i.name for i in m.graph.input]
+    outs = [o.name for o in m.graph.output]
+    opset = next((o.version for o in m.opset_import if o.domain in ("", "ai.onnx")), 17)
+    float_ins = [i.name for i in m.graph.input if i.type.tensor_type.elem_type == TP.FLOAT]
+    float_outs = [o.name for o in m.graph.output if o.type.tensor_type.elem_type == TP.FLOAT]
+    vals1 = input_values(rng, m)
+    vals2 = {k: (np.asarray(-v) if v.dtype != np.bool_ else np.array(not bool(v))) for k, v in vals1.items()}
+    try:
+        d1 = dict(zip(outs, ort_run(m_ref, vals1)))
+        d2 = dict(zip(outs, ort_run(m_ref, vals2)))
+    except Exception as e:  # noqa: BLE001
+        raise Infra(f"onnxruntime cannot run m itself: {e}") from e
+    if not float_outs or not float_ins or np.asarray(d1[float_outs[0]]).ndim < 1 or np.asarray(d1[float_outs[0]]).size == 0 \
+            or vals1[float_ins[0]].ndim < 1 or vals1[float_ins[0]].size == 0:
+        return fails
+    link = float_outs[0]
+    pv = rng.choice([v for v in (11, 12, 13, 16, 17, 18, 18, 19, 20, 21, 21) if v != opset])
+    dependent_wish = rng.random() < 0.6
+    pm = None
+    where_m, where_p = rng.choice(PLACES), rng.choice(PLACES)
+    partner_first = rng.random() < 0.5
+    dependent = (not partner_first) and where_m == "top" and dependent_wish
+    pm = partner_model(pv, np.asarray(d1[link]).ndim if dependent else vals1[float_ins[0]].ndim)
+    label = f"two-models(m@{opset} {where_m}, partner@{pv} {where_p}, {'partner first' if partner_first else 'm first'}{', partner on m' if dependent else ''})"
+    op = L.opset_module(17)
+    try:
+        with warnings.catch_warnings():
+            warnings.simplefilter("ignore")
+            A = {i.name: argument(spox_type(concrete_for(m, i))) for i in m.graph.input}
+            c = argument(Tensor(np.bool_, ()))
+            f, g = inline(m), inline(pm)
+            negA = {n: (op.neg(A[n]) if n in float_ins else op.not_(A[n])) for n in ins}
+
+            def place(where, thunk, fallback):
+                if where == "top":
+                    return thunk()
+                if where == "then":
+                    return op.if_(c, then_branch=lambda: [thunk()], else_branch=lambda: [fallback()])[0]
+                if where == "else":
+                    return op.if_(c, then_branch=lambda: [fallback()], else_branch=lambda: [thunk()])[0]
+                if where == "nested":
+                    return op.if_(c, then_branch=lambda: [op.if_(c, then_branch=lambda: [thunk()], else_branch=lambda: [fallback()])[0]],
+                                  else_branch=lambda: [fallback()])[0]
+                (stacked,) = op.loop(op.const(np.array(1, np.int64)), None, v_initial=[], body=lambda i, cnd: [op.const(np.array(True)), thunk()])
+                return op.squeeze(stacked, op.const(np.array([0], np.int64)))
+
+            def do_m():
+                return place(where_m, lambda: f(*[A[n] for n in ins])[link], lambda: f(*[negA[n] for n in ins])[link])
+
+            holder: dict = {}
+
+            def do_p():
+                px = holder["m"] if dependent else A[float_ins[0]]
+                return place(where_p, lambda: g(px)["py"], lambda: op.neg(px))
+
+            if partner_first:
+                holder["p"] = do_p()
+                holder["m"] = do_m()
+            else:
+                holder["m"] = do_m()
+                holder["p"] = do_p()
+            built = build({**{f"arg_{j}": A[n] for j, n in enumerate(ins)}, "outer_cond": c}, {"res_m": holder["m"], "res_p": holder["p"]})
+    except Exception as e:  # noqa: BLE001
+        return [(classify_build_error(m, e), f"{label}: building raised {type(e).__name__}: {str(e)[:300]}")]
+    imports = [(o.domain, o.version) for o in built.opset_import]
+    for cv in (True, False):
+        taken_m = where_m in ("top", "loop") or (cv and where_m in ("then", "nested")) or (not cv and where_m == "else")
+        taken_p = where_p in ("top", "loop") or (cv and where_p in ("then", "nested")) or (not cv and where_p == "else")
+        exp_m = (d1 if taken_m else d2)[link]
+        px = exp_m if dependent else vals1[float_ins[0]]
+        try:
+            exp_p = ort_run(pm, {"px": np.asarray(px)})[0] if taken_p else -np.asarray(px)
+        except Exception as e:  # noqa: BLE001
+            raise Infra(f"onnxruntime cannot run the partner model: {e}") from e
+        try:
+            got = dict(zip([o.name for o in built.graph.output], ort_run(built, {**{f"arg_{j}": vals1[n] for j, n in enumerate(ins)}, "outer_cond": np.array(cv)})))
+        except Exception as e:  # noqa: BLE001
+            fails.append((f"outer-model-rejected:{type(e).__name__}", f"{label}: onnxruntime refuses the built model (imports {imports}): {str(e)[:300]}"))
+            break
+        bad = [k for k, ex in (("res_m", exp_m), ("res_p", exp_p)) if not same(got[k], ex)]
+        if bad:
+            k = bad[0]
+            key = converter_blame(m_ref, [vals1, vals2]) or "result-mismatch:two-models"
+            fails.append((key, f"{label}, cond={cv} (imports {imports}): output {k}: built {np.asarray(got[k]).tolist()} but the inlined model computes {np.asarray(exp_m if k == 'res_m' else exp_p).tolist()}"))
+            break
+    if m.SerializeToString(deterministic=True) != before:
+        fails.append(("m-modified", f"{label}: the caller's model changed"))
+    return fails
+
+
 def oracle_compose(m: onnx.ModelProto, form: str, seed: int) -> list[tuple[str, str]]:
     """Build an outer program around inline(m) and compare with m itself under onnxruntime.
     Returns a list of (key, description) failures of the property. Model-free."""
     from spox import Tensor, argument, build, inline
 
+    if form == "two-models":
+        return oracle_two_models(m, seed)
     rng = random.Random(seed)
     fails: list[tuple[str, str]] = []
     before = m.SerializeToString(deterministic=True)
@@ -736,7 +872,7 @@ def oracle_compose(m: onnx.ModelProto, form: str, seed: int) -> list[tuple[str, 
     float_outs = [o.name for o in m.graph.output if o.type.tensor_type.elem_type == TP.FLOAT]
 
     def arg_for(i):
-        tj = concrete(L.type_json(i.type))
+        tj = concrete_for(m, i)
         return argument(spox_type(tj))
 
     def direct(vals: dict, omit=()):
@@ -746,7 +882,7 @@ def oracle_compose(m: onnx.ModelProto, form: str, seed: int) -> list[tuple[str, 
             raise Infra(f"onnxruntime cannot run m itself: {e}") from e
 
     vals1 = input_values(rng, m)
-    vals2 = {k: (-v if v.dtype != np.bool_ else np.array(not bool(v))) for k, v in vals1.items()}
+    vals2 = {k: (np.asarray(-v) if v.dtype != np.bool_ else np.array(not bool(v))) for k, v in vals1.items()}
     fshape = tuple(vals1[float_ins[0]].shape) if float_ins else (2,)
 
     blame_vals = [vals1, vals2]  # every input assignment m is evaluated on in this composition
@@ -768,6 +904,7 @@ def oracle_compose(m: onnx.ModelProto, form: str, seed: int) -> list[tuple[str, 
 
     expected: dict[str, Any] = {}
     results: dict[str, Any] = {}
+    check_built_decl = None
     try:
         with warnings.catch_warnings():
             warnings.simplefilter("ignore")
@@ -783,6 +920,7 @@ def oracle_compose(m: onnx.ModelProto, form: str, seed: int) -> list[tuple[str, 
                     fails.append(("result-names", f"returned keys {list(r.keys())}, model outputs {outs}"))
                 elif got != declared:
                     fails.append(("output-type-mismatch", f"returned types {got}, declared {declared}"))
+                check_built_decl = declared
             elif form in ("twice", "shared-callable"):
                 f1 = inline(m)
                 f2 = f1 if form == "shared-callable" else inline(m)
@@ -952,6 +1090,13 @@ def oracle_compose(m: onnx.ModelProto, form: str, seed: int) -> list[tuple[str, 
     except Exception as e:  # noqa: BLE001
         fails.append((classify_build_error(m, e, ml_v), f"{label}: building around inline(m) raised {type(e).__name__}: {str(e)[:300]}"))
         outer = None
+    if outer is not None and check_built_decl is not None and mixed_v is None and ml_v is None:
+        # the built model declares, for the Vars inline(m) returned, m's output types literally (0 stays 0)
+        built_decl = {o.name: L.strip_symbols(L.type_json(o.type)) for o in outer.graph.output}
+        for k, dcl in enumerate(check_built_decl):
+            if built_decl.get(f"res_{k}") != dcl:
+                fails.append(("built-output-type-mismatch", f"{label}: the built model declares {built_decl.get(f'res_{k}')} for output {k}, m declares {dcl}"))
+                break
     if outer is not None:
         try:
             got = dict(zip([o.name for o in outer.graph.output], ort_run(outer, feeds)))
@@ -1002,7 +1147,7 @@ def oracle_build_only(m: onnx.ModelProto, seed: int) -> list[tuple[str, str]]:
     try:
         with warnings.catch_warnings():
             warnings.simplefilter("ignore")
-            A = [argument(spox_type(concrete(L.type_json(i.type)))) for i in m.graph.input]
+            A = [argument(spox_type(concrete_for(m, i))) for i in m.graph.input]
             r = inline(m)(*A)
             outer = build({f"arg_{j}": a for j, a in enumerate(A)}, {f"res_{k}": r[o.name] for k, o in enumerate(m.graph.output)})
     except Exception as e:  # noqa: BLE001
@@ -1055,7 +1200,7 @@ def oracle_hostile_names(m: onnx.ModelProto, seed: int, variants=None) -> list[t
         try:
             with warnings.catch_warnings():
                 warnings.simplefilter("ignore")
-                A = [argument(spox_type(concrete(L.type_json(i.type)))) for i in m.graph.input]
+                A = [argument(spox_type(concrete_for(m, i))) for i in m.graph.input]
                 r = inline(m)(*A)
                 built = build(dict(zip(arg_keys, A)), {rk: r[o] for rk, o in zip(res_keys, outs)})
         except Exception as e:  # noqa: BLE001 - refusing is fine
@@ -1063,6 +1208,7 @@ def oracle_hostile_names(m: onnx.ModelProto, seed: int, variants=None) -> list[t
             HOSTILE_HIST[key] = HOSTILE_HIST.get(key, 0) + 1
             continue
         try:
+            # (onnxruntime aborts the process on some invalid models: it runs in a child process, see ort_run)
             got = dict(zip([o.name for o in built.graph.output], ort_run(built, dict(zip(arg_keys, [vals[n] for n in ins])))))
         except Exception as e:  # noqa: BLE001
             fails.append(("invalid-model-under-hostile-names", f"{variant}: build accepted names {arg_keys} -> {res_keys} but onnxruntime refuses the model: {str(e)[:200]}"))
@@ -1088,7 +1234,7 @@ def oracle_errors(m: onnx.ModelProto, seed: int) -> list[tuple[str, str]]:
     defaults = {i.name for i in m.graph.initializer}
 
     def arg(i, wrong=False):
-        tj = concrete(L.type_json(i.type))
+        tj = concrete_for(m, i)
         if wrong:
             e, dims = tj["t"]
             tj = {"t": [TP.INT64 if e != TP.INT64 else TP.FLOAT, dims]}
@@ -1125,6 +1271,17 @@ def oracle_errors(m: onnx.ModelProto, seed: int) -> list[tuple[str, str]]:
         expect_type_error("wrong-type", bad, {})
     else:
         expect_type_error("wrong-type", [], dict(zip(names, bad)))
+    # same rank, one DECLARED constant dimension replaced by another constant (0 <-> non-zero included): cannot match
+    cands = [(jj, q, d) for jj, i in enumerate(ins) for q, d in enumerate((L.type_json(i.type) or {"t": [0, None]})["t"][1] or [])
+             if isinstance(d, int) and "t" in (L.type_json(i.type) or {})]
+    if cands:
+        jj, q, d = rng.choice(cands)
+        tj = concrete_for(m, ins[jj])
+        e, dims = tj["t"]
+        other = rng.choice([x for x in (0, 1, 2, 3, 5) if x != d])
+        bad2 = list(full)
+        bad2[jj] = argument(spox_type({"t": [e, [other if qq == q else x for qq, x in enumerate(dims)]]}))
+        expect_type_error("wrong-shape", bad2, {})
     try:
         inline(L.add_local_function(m))
         fails.append(("functions-accepted", "a model defining local functions was not refused"))
@@ -1197,6 +1354,31 @@ def fixed_corner_models() -> list[tuple[onnx.ModelProto, dict]]:
     sp = H.make_sparse_tensor(NH.from_array(np.array([3.0], np.float32), "s"), NH.from_array(np.array([1], np.int64), ""), [2])
     out.append((mk([H.make_node("Add", ["x", "s"], ["y"])], [f2("x")], [f2("y")], opset=14, sparse_initializer=[sp]),
                 ["sparse-initializer", "opset-14"]))
+    # --- literal 0 dimensions, dim_param "", dimensions without fields in the declared types
+    z = H.make_model(H.make_graph([H.make_node("Add", ["x", "y"], ["s"]), H.make_node("Abs", ["s"], ["o"])], "g",
+                                  [f2("x", (0, 3)), f2("y", ("", 3))], [f2("o", (0, 3)), f2("s", (None, 3))], doc_string="runtime-shape:[0, 3]"),
+                     opset_imports=[H.make_operatorsetid("", 17)], ir_version=8)
+    out.append((z, ["declared-types", "zero-size", "decl:literal-0", "decl:dim_param-empty", "decl:dim-missing-fields", "no-chain"]))
+    # --- initializers OWNED BY BODIES of m (If branches, Loop body, Scan body, depth 2): renamed with the body's names
+    ib_t = H.make_graph([H.make_node("Add", ["x", "B"], ["t"])], "then_g", [], [f2("t")], initializer=[NH.from_array(np.array([1, 2], np.float32), "B")])
+    ib_e = H.make_graph([H.make_node("Mul", ["x", "S"], ["t"])], "else_g", [], [f2("t")], initializer=[NH.from_array(np.array([3, 4], np.float32), "S")])
+    out.append((mk([H.make_node("If", ["c"], ["y"], then_branch=ib_t, else_branch=ib_e)], [f2("x"), bvi("c", TP.BOOL, [])], [f2("y")]),
+                ["body-initializer", "subgraph-captures-outer"]))
+    ib_in = H.make_graph([H.make_node("Sub", ["xi", "D"], ["t"])], "then_g", [], [f2("t")], initializer=[NH.from_array(np.array([0.5, 0.25], np.float32), "D")])
+    ib_in2 = H.make_graph([H.make_node("Add", ["xi", "B"], ["t"])], "else_g", [], [f2("t")])
+    ib_lb = H.make_graph([H.make_node("Identity", ["ci"], ["co"]), H.make_node("If", ["c"], ["u"], then_branch=ib_in, else_branch=ib_in2),
+                          H.make_node("Mul", ["u", "B"], ["xo"])], "loop_body",
+                         [bvi("it", TP.INT64, []), bvi("ci", TP.BOOL, []), f2("xi")], [bvi("co", TP.BOOL, []), f2("xo")],
+                         initializer=[NH.from_array(np.array([2, -1], np.float32), "B")])
+    out.append((mk([H.make_node("Constant", [], ["M"], value=NH.from_array(np.array(2, np.int64), "M")),
+                    H.make_node("Loop", ["M", "", "x"], ["y"], body=ib_lb)], [f2("x"), bvi("c", TP.BOOL, [])], [f2("y")],
+                   initializer=[NH.from_array(np.array([7, 7], np.float32), "W")]),
+                ["body-initializer", "if-inside-loop", "loop-body-captures-outer", "initializer"]))
+    ib_sc = H.make_graph([H.make_node("Add", ["si", "K"], ["s1"]), H.make_node("Mul", ["s1", "xi"], ["so"]), H.make_node("Identity", ["so"], ["sc"])], "scan_body",
+                         [f2("si"), f2("xi")], [f2("so"), f2("sc")], initializer=[NH.from_array(np.array([0.5, 1.5], np.float32), "K")])
+    out.append((mk([H.make_node("Constant", [], ["sh"], value=NH.from_array(np.array([1, 2], np.int64), "sh")), H.make_node("Reshape", ["x", "sh"], ["seq"]),
+                    H.make_node("Scan", ["x", "seq"], ["y", "st"], body=ib_sc, num_scan_inputs=1)], [f2("x")], [f2("y")]),
+                ["body-initializer", "scan-body"]))
     # --- the version family: changed operators ONLY inside bodies, second domains, known converter defect
     f3 = lambda n: H.make_tensor_value_info(n, TP.FLOAT, [2, 3, 4])  # noqa: E731
     cb = bvi("c", TP.BOOL, [])
@@ -1265,7 +1447,7 @@ def fixed_corner_models() -> list[tuple[onnx.ModelProto, dict]]:
     return [(m, {"features": sorted(ft + ["corner"]), "runnable": True, "opset": next((o.version for o in m.opset_import if o.domain in ("", "ai.onnx")), 17), "kind": "corner"}) for m, ft in out]
 
 
-def make_models(ck: core.Check, n_hand: int, n_spox: int, n_vbody: int = 0):
+def make_models(ck: core.Check, n_hand: int, n_spox: int, n_vbody: int = 0, n_types: int = 0):
     rng = ck.rng
     models = list(fixed_corner_models())
     n_corner = len(models)
@@ -1281,7 +1463,17 @@ def make_models(ck: core.Check, n_hand: int, n_spox: int, n_vbody: int = 0):
             dropped += 1
             if dropped > 5 * n_vbody + 20:
                 raise RuntimeError("version generator produces mostly invalid models")
-    while len(models) < n_corner + n_vbody + n_hand:
+    n_t = 0
+    while n_t < n_types:
+        m, meta = L.TypeGen(rng).model()
+        if valid(m, True, rng):
+            models.append((m, meta))
+            n_t += 1
+        else:
+            dropped += 1
+            if dropped > 10 * n_types + 50:
+                raise RuntimeError("type generator produces mostly invalid models")
+    while len(models) < n_corner + n_vbody + n_types + n_hand:
         m, meta = L.HandGen(rng).model()
         if valid(m, meta["runnable"], rng):
             models.append((m, meta))
@@ -1292,7 +1484,8 @@ def make_models(ck: core.Check, n_hand: int, n_spox: int, n_vbody: int = 0):
     # every model is snapshotted as bytes the moment it exists; all later phases work on fresh copies
     snaps = [m.SerializeToString(deterministic=True) for m, _ in models]
     library = [fresh(b) for b, (m, meta) in zip(snaps, models) if meta["runnable"] and len(m.graph.output) >= 1
-               and "version-family" not in meta["features"] and meta["kind"] != "vbody"][:40]
+               and "version-family" not in meta["features"] and meta["kind"] not in ("vbody", "types")
+               and "declared-types" not in meta["features"]][:40]
     with warnings.catch_warnings():
         warnings.simplefilter("ignore")
         made = 0
@@ -1330,7 +1523,7 @@ def purity(m: onnx.ModelProto) -> list[tuple[str, str]]:
             warnings.simplefilter("ignore")
             f = inline(m)
             mid = m.SerializeToString(deterministic=True)
-            f(*[argument(spox_type(concrete(L.type_json(i.type)))) for i in m.graph.input])
+            f(*[argument(spox_type(concrete_for(m, i))) for i in m.graph.input])
     except Exception:  # noqa: BLE001 - judged elsewhere
         mid = m.SerializeToString(deterministic=True)
     after = m.SerializeToString(deterministic=True)
@@ -1369,8 +1562,8 @@ def run(ck: core.Check):
         ck.leanchecker(["SpoxModel.Props.C08"])
 
     rng = ck.rng
-    n_hand, n_spox = ck.pick((220, 80), (1100, 380))
-    n_vbody = ck.pick(70, 300)
+    n_hand, n_spox = ck.pick((170, 60), (1100, 380))
+    n_vbody = ck.pick(60, 300)
     # tie G (escalation, not an obligation): the functions the model transcribes changed since the baseline was
     # taken -> search the version family three times as wide and with every composition form
     changed = []
@@ -1388,7 +1581,8 @@ def run(ck: core.Check):
     if changed:
         ck.notes.append(f"covered source changed since the baseline ({', '.join(changed)}): version-family counts escalated")
         n_vbody *= 3
-    models, snaps, dropped = make_models(ck, n_hand, n_spox, n_vbody)
+    n_types = ck.pick(30, 300)
+    models, snaps, dropped = make_models(ck, n_hand, n_spox, n_vbody, n_types)
     ck.log(f"{len(models)} models generated ({dropped} invalid candidates dropped)")
     feature_hist: dict[str, int] = {}
     for _, meta in models:
@@ -1489,6 +1683,7 @@ def run(ck: core.Check):
             if mism2 <= 2:
                 ck.broken("correspondence", "C08 adapt_inline under other names (second call on the same node)",
                           f"real {json.dumps(ra)[:400]} model {json.dumps(ma)[:400]}")
+    ck.log(f"stage correspondence done: {len(reqs)} cases")
     ck.cov["adapt_second_call_cases"] = len(reqs2)
     ck.cov["adapt_second_call_mismatches"] = mism2
     ck.cov["correspondence_cases"] = len(reqs)
@@ -1524,6 +1719,7 @@ def run(ck: core.Check):
             ev_mism += 1
             if ev_mism <= 2:
                 ck.broken("correspondence", "C08 evalModel vs onnxruntime", f"model {ans} ort {exp} graph {json.dumps(rq)[:600]}")
+    ck.log(f"evaluator correspondence done: {len(ev_reqs)} cases")
     ck.cov["evaluator_cases"] = len(ev_reqs)
     ck.cov["evaluator_mismatches"] = ev_mism
 
@@ -1566,6 +1762,7 @@ def run(ck: core.Check):
     finally:
         if restore_hook:
             restore_hook()
+    ck.log(f"oracle phase done: {ck.cov.get('oracle_compositions')} compositions")
     if scope_obs.get("to_onnx_calls") and scope_obs["prefix_free"] != scope_obs["to_onnx_calls"]:
         ck.notes.append(f"{scope_obs['to_onnx_calls'] - scope_obs['prefix_free']} build scopes were not free of the node's prefix family (rename_total does not apply to them)")
     # build_scope_prefixFree: naming facts observed, condition evaluated by the model
@@ -1619,10 +1816,18 @@ def _oracle_phase(ck, models, snaps, rng, scope_obs):
         family = meta["kind"] == "vbody" or "version-family" in meta["features"]
         if family:
             # the version family: always next to operators of a later opset, in several compositions and histories
-            forms = (list(FORMS) + list(MIXED_FORMS)) if (ck.thorough or ESCALATE or meta["kind"] == "corner") else (
+            forms = (list(FORMS) + list(MIXED_FORMS)) if (ck.thorough or ESCALATE) else (
+                ["once", "mixed+once", "history", "name-history"] + rng.sample(MIXED_FORMS[1:], 3) + rng.sample(FORMS[1:8], 2)) if meta["kind"] == "corner" else (
                 ["once", "mixed+once"] + rng.sample(MIXED_FORMS[1:], 2) + rng.sample(["mixed-opset", "history", "name-history", "loop-body", "if-body"], 1))
+        elif "declared-types" in meta["features"]:
+            forms = ["once", "twice", "if-body", "chained", "mixed-opset"] if ck.thorough else ["once", rng.choice(["twice", "if-body", "chained", "mixed-opset"])]
         else:
-            forms = list(FORMS) if (ck.thorough or meta["kind"] == "corner") else ["once"] + rng.sample(FORMS[1:], 3)
+            if ck.thorough or meta["kind"] == "corner":
+                forms = list(FORMS)
+            else:
+                # the two history forms cost 5-6 builds each: one of them for a quarter of the models
+                forms = ["once"] + rng.sample(FORMS[1:8], 3) + ([rng.choice(FORMS[8:])] if rng.random() < 0.25 else [])
+        forms = list(forms) + ["two-models"] * (3 if ck.thorough else (2 if family else 1))
         for form in forms:
             if form == "chained" and "no-chain" in meta["features"]:
                 continue
@@ -1636,7 +1841,8 @@ def _oracle_phase(ck, models, snaps, rng, scope_obs):
                                        "summary": L.summary(m), "features": meta["features"]})
         ck.sample({"model": L.summary(m), "features": meta["features"]}, 4)
     ck.cov.update({"oracle_compositions": n_oracle, "oracle_forms": form_hist, "hostile_outer_names": dict(sorted(HOSTILE_HIST.items())),
-                   "onnxruntime_retries_without_optimiser": ORT_FALLBACKS["unoptimised"]})
+                   "onnxruntime_retries_without_optimiser": ORT_FALLBACKS["unoptimised"],
+                   "onnxruntime_process_aborts": ORT_FALLBACKS.get("aborted", 0)})
 
 
 def _finish_evidence(ck):
